@@ -98,6 +98,12 @@ theorem TreeBounded.child {s : State} (h : TreeBounded s) {r : Move × State} (h
 theorem posInf_eq : Ev.posInf = 10000 := rfl
 theorem negInf_eq : Ev.negInf = -10000 := rfl
 
+/-- since the repair of F10 the heuristic score that `evaluate` returns is clamped: strictly inside
+`(-10000, 10000)` for EVERY state (no material bound needed) -/
+theorem clamped_lt (x : Eval) : -10000 < clampHeuristic x ∧ clampHeuristic x < 10000 := by
+  have := clampHeuristic_range x
+  constructor <;> eomega
+
 theorem heuristic_lt {s : State} (hb : MaterialBounded s) :
     -10000 < evalHeuristic (Variation.of s) s.turn ∧ evalHeuristic (Variation.of s) s.turn < 10000 := by
   have h := C05.C05_heuristic_bound s s.turn
@@ -109,7 +115,7 @@ theorem mateInPly_ge (d : Nat) : 10000 ≤ Ev.mateInPly d := C05.C05_mono_ge d
 /-- the three possible results of `evaluate` from the side to move's perspective -/
 theorem evaluate_cases {s : State} {d : Nat} {e : Eval} (h : evaluate s s.turn d = some e) :
     (legalMoves? s = some [] ∧ s.isCheck = true ∧ e = - Ev.mateInPly d) ∨ e = 0 ∨
-      e = evalHeuristic (Variation.of s) s.turn := by
+      e = clampHeuristic (evalHeuristic (Variation.of s) s.turn) := by
   unfold evaluate at h
   cases hk : kingHasMove s with
   | none => rw [hk] at h; cases h
@@ -139,34 +145,36 @@ theorem evaluate_cases {s : State} {d : Nat} {e : Eval} (h : evaluate s s.turn d
           · rw [if_neg h2] at h; right; right; exact (Option.some.inj h).symm
     · rw [if_neg hc] at h; right; right; exact (Option.some.inj h).symm
 
-/-- **StaticOK.**  Under the material bound a terminal static evaluation (from the side to move's
-perspective) is the checkmate branch: no legal move, in check, value `-mate_in_ply(depth)`. -/
-theorem static_ok {s : State} {d : Nat} {e : Eval} (hb : MaterialBounded s)
+/-- **StaticOK.**  A terminal static evaluation (from the side to move's perspective) is the
+checkmate branch: no legal move, in check, value `-mate_in_ply(depth)`.  (Before the repair of F10
+this needed the material bound `MaterialBounded s`; the clamp makes it hold for every state.) -/
+theorem static_ok {s : State} {d : Nat} {e : Eval}
     (h : evaluate s s.turn d = some e) (ht : Ev.isTerminal e = true) :
     legalMoves? s = some [] ∧ s.isCheck = true ∧ e = - Ev.mateInPly d := by
   rcases evaluate_cases h with h1 | h0 | hh
   · exact h1
   · subst h0; exact absurd ht (by decide)
-  · have := heuristic_lt hb
+  · have := clamped_lt (evalHeuristic (Variation.of s) s.turn)
+    rw [← hh] at this
     unfold Ev.isTerminal at ht
     rw [posInf_eq, negInf_eq, Bool.or_eq_true, decide_eq_true_eq, decide_eq_true_eq] at ht
     eomega
 
 /-- with a legal move the static value is strictly inside `(-10000, 10000)` -/
-theorem static_nonterminal {s : State} {d : Nat} {e : Eval} (hb : MaterialBounded s)
+theorem static_nonterminal {s : State} {d : Nat} {e : Eval}
     (h : evaluate s s.turn d = some e) (hm : legalMoves? s ≠ some []) : -10000 < e ∧ e < 10000 := by
   rcases evaluate_cases h with h1 | h0 | hh
   · exact absurd h1.1 hm
   · subst h0; eomega
-  · rw [hh]; exact heuristic_lt hb
+  · rw [hh]; exact clamped_lt _
 
 /-- the static value never claims a win for the side to move -/
-theorem static_lt {s : State} {d : Nat} {e : Eval} (hb : MaterialBounded s)
+theorem static_lt {s : State} {d : Nat} {e : Eval}
     (h : evaluate s s.turn d = some e) : e < 10000 := by
   rcases evaluate_cases h with h1 | h0 | hh
   · have := mateInPly_ge d; eomega
   · subst h0; eomega
-  · rw [hh]; exact (heuristic_lt hb).2
+  · rw [hh]; exact (clamped_lt _).2
 
 /-! ## 3. quiescence -/
 
@@ -236,16 +244,16 @@ theorem quiesce_loop_sound (fuel depth : Nat) (s : State) (α β : Eval)
           · rw [if_neg hgt] at hv
             exact ihl a hrest hab hw v hv
 
-/-- **quiescence is sound.**  Every value returned by `quiescence_search` on a position whose
-reachable tree satisfies the material bound is `SoundVal` for the window it was called with. -/
-theorem quiesce_sound : ∀ (fuel : Nat) (s : State) (depth : Nat) (α β r : Eval), TreeBounded s → α < β →
+/-- **quiescence is sound.**  Every value returned by `quiescence_search` — on ANY position (the
+material bound `TreeBounded s` of the pre-F10 development is gone) — is `SoundVal` for the window it
+was called with. -/
+theorem quiesce_sound : ∀ (fuel : Nat) (s : State) (depth : Nat) (α β r : Eval), α < β →
     quiesce evaluate fuel s depth α β = .ok r → SoundVal s α β r := by
   intro fuel
   induction fuel with
-  | zero => intro s depth α β r _ _ h; rw [quiesce] at h; cases h
+  | zero => intro s depth α β r _ h; rw [quiesce] at h; cases h
   | succ fuel ih =>
-    intro s depth α β r htb hαβ h
-    have hb := htb.here
+    intro s depth α β r hαβ h
     rw [quiesce.eq_2] at h
     cases hl : legalMoves? s with
     | none => rw [hl] at h; cases h
@@ -271,11 +279,11 @@ theorem quiesce_sound : ∀ (fuel : Nat) (s : State) (depth : Nat) (α β r : Ev
             have := mateInPly_ge depth
             rw [posInf_eq] at h; eomega
           · subst h0; exact SoundVal.of_nonterminal (by eomega) (by eomega)
-          · rw [hh]; exact SoundVal.of_nonterminal (heuristic_lt hb).1 (heuristic_lt hb).2
+          · rw [hh]; exact SoundVal.of_nonterminal (clamped_lt _).1 (clamped_lt _).2
         · rw [if_neg hemp] at h
           have hne : legalMoves? s ≠ some [] := by
             rw [hl]; intro hh; cases hh; exact hemp rfl
-          have hnt := static_nonterminal hb he hne
+          have hnt := static_nonterminal he hne
           by_cases hq : (ms.all fun r => !Move.isCapture r.1) = true
           · rw [if_pos hq] at h; cases h
             exact SoundVal.of_nonterminal hnt.1 hnt.2
@@ -288,7 +296,7 @@ theorem quiesce_sound : ∀ (fuel : Nat) (s : State) (depth : Nat) (α β r : Ev
             · rw [if_neg hcut] at h
               have ihc : ∀ r ∈ legalMoves s, ∀ d a b v, a < b →
                   quiesce evaluate fuel r.2 d a b = .ok v → SoundVal r.2 a b v :=
-                fun r hr d a b v hab hv => ih r.2 d a b v (htb.child hr) hab hv
+                fun r hr d a b v hab hv => ih r.2 d a b v hab hv
               have hmem : ∀ r ∈ (if ms.length < 2 then ms else
                   List.map (fun x => x.snd) ((List.map (fun r => ((F32.toI32 (-F32.mul (F32.sub
                     (match Move.capture r.1 with | some p => pieceWorth p | Option.none => 0)
@@ -493,17 +501,19 @@ def SoundTT (K : Keys) (D : State → Prop) (tt : TT.Access) : Prop :=
   ∀ s e, D s → tt.find (hash K s).toNat = some e → SoundEntry s e
 
 /-- the set of positions a search may visit: closed under legal moves, the move generator does not
-panic on it, the static evaluation is bounded on it, and positions with the same key are
-interchangeable for the claims of a table entry (no harmful hash collision inside the set) -/
+panic on it, and positions with the same key are interchangeable for the claims of a table entry
+(no harmful hash collision inside the set).  (Before the repair of F10 there was a third field
+`bounded : ∀ s, D s → MaterialBounded s`; the clamp at the end of `Evaluator::evaluate` made it
+unnecessary: `static_ok` holds for every state.) -/
 structure Domain (K : Keys) (D : State → Prop) : Prop where
   closed : ∀ s, D s → ∀ r ∈ legalMoves s, D r.2
   genOK : ∀ s, D s → legalMoves? s ≠ none
-  bounded : ∀ s, D s → MaterialBounded s
   coll : ∀ s s', D s → D s' → (hash K s).toNat = (hash K s').toNat → ∀ e, SoundEntry s e → SoundEntry s' e
 
-theorem Domain.tree {K : Keys} {D : State → Prop} (dom : Domain K D) {s : State} (hs : D s) : TreeBounded s := by
+/-- the positions reachable from a position of the domain are in the domain -/
+theorem Domain.reach {K : Keys} {D : State → Prop} (dom : Domain K D) {s : State} (hs : D s) :
+    ∀ s', Reachable s s' → D s' := by
   intro s' hr
-  refine dom.bounded s' ?_
   induction hr with
   | refl => exact hs
   | step r _ hr ih => exact dom.closed _ ih r hr
@@ -734,16 +744,16 @@ theorem mem_buffer (prio : Option Move) (sorted : List Move) (mv : Move) :
   | some m => simp [eq_comm, or_comm]
 
 /-- the static value (from the side to move's perspective) is always a sound return value -/
-theorem static_sound {s : State} {d : Nat} {e α β : Eval} (hb : MaterialBounded s)
+theorem static_sound {s : State} {d : Nat} {e α β : Eval}
     (he : evaluate s s.turn d = some e) : SoundVal s α β e := by
   refine ⟨fun h => ?_, fun h => ?_⟩
-  · have := static_lt hb he
+  · have := static_lt he
     rw [posInf_eq] at h; eomega
   · have ht : Ev.isTerminal e = true := by
       unfold Ev.isTerminal
       rw [Bool.or_eq_true, decide_eq_true_eq]
       exact Or.inl h.1
-    obtain ⟨h1, h2, _⟩ := static_ok hb he ht
+    obtain ⟨h1, h2, _⟩ := static_ok he ht
     exact lost_of_mate h1 h2
 
 theorem throw_bind_holds {α β : Type} {I : St → Prop} {e : Stop} {f : α → M β} {Q : β → Prop} :
@@ -784,13 +794,12 @@ theorem tail_sound {I : St → Prop} {K : Keys} {D : State → Prop} (dom : Doma
       args.prioritized = Option.none → Holds I (child args) (SoundVal args.s args.alpha args.beta)) :
     Holds I (tail ctx a hash alpha beta rec) (SoundVal a.s alpha beta) := by
   obtain ⟨ms, hms⟩ := dom.gen hD
-  have hb := dom.bounded _ hD
   cases rec with
   | none =>
     unfold tail
     cases hq : quiesce evaluate (quiesceFuel a.s) a.s a.curDepth alpha beta with
     | error e => exact Holds.throw
-    | ok v => exact Holds.pure (quiesce_sound _ _ _ _ _ _ (dom.tree hD) hab hq)
+    | ok v => exact Holds.pure (quiesce_sound _ _ _ _ _ _ hab hq)
   | some child =>
     unfold tail
     obtain ⟨ps, hps⟩ := pseudo_of_legal hms
@@ -826,7 +835,7 @@ theorem tail_sound {I : St → Prop} {K : Keys} {D : State → Prop} (dom : Doma
       have hn : (st1.nodes == st0.nodes) = true := by rw [hst1.2, hst0.2]; exact beq_self_eq_true _
       rw [if_pos hn]
       cases he : evaluate a.s a.s.turn a.curDepth with
-      | some e => exact Holds.pure (static_sound hb he)
+      | some e => exact Holds.pure (static_sound he)
       | none => exact throw_bind_holds
     · have hne : legalMoves a.s ≠ [] := by rw [hlm]; exact hemp
       refine Holds.bind (sort_holds ps _ fun x => Holds.bind (jitter_holds hrng) fun _ _ => Holds.pure trivial)
@@ -862,7 +871,7 @@ theorem tail_sound {I : St → Prop} {K : Keys} {D : State → Prop} (dom : Doma
         by_cases hn : (st1.nodes == st0.nodes) = true
         · rw [if_pos hn]
           cases he : evaluate a.s a.s.turn a.curDepth with
-          | some e => exact Holds.pure (static_sound hb he)
+          | some e => exact Holds.pure (static_sound he)
           | none => exact throw_bind_holds
         · rw [if_neg hn]
           exact hfin
